@@ -1,7 +1,7 @@
 (* C16 for the inscription updater: on every valid chain the model of Index/Inscr.v returns Ok. *)
 From OrdV Require Import Base.Prelude Generated Index.Inscr Proofs.Inscr_tables Proofs.Inscr_proofs
   Proofs.Inscr_c07 Proofs.Inscr_c06 Proofs.Inscr_c04 Proofs.Inscr_c03 Proofs.Inscr_sats Proofs.Inscr_c04off
-  Proofs.Inscr_satinv Proofs.Inscr_idh.
+  Proofs.Inscr_satinv Proofs.Inscr_idh Proofs.Inscr_ids.
 From Coq Require Import Permutation Sorting.Sorted ZifyBool ZifyN.
 
 (* ---- the table facts that make every unwrap succeed *)
@@ -334,7 +334,7 @@ Fixpoint ledger_put (txid vout : N) (outs : list txout) (L : ledger) : ledger :=
   end.
 
 Definition Led (cfg : config) (L : ledger) (U : list (outpoint * uentry)) : Prop :=
-  forall op v, tgP op L = Some v -> exists u, tgP op U = Some u /\ total_value cfg u = v.
+  forall op v, tgP op L = Some v -> fst op <> 0 /\ exists u, tgP op U = Some u /\ total_value cfg u = v.
 
 Definition sum_tv (cfg : config) (ents : list uentry) : N := fold_right (fun u a => total_value cfg u + a) 0 ents.
 
@@ -345,30 +345,30 @@ Proof.
   intros cfg ins. induction ins as [|p r IH]; intros L U s L1 HL H; cbn [ledger_take] in H.
   - inv H. exists [], U. cbn. auto.
   - destruct (tgP p L) as [v|] eqn:Q; [|discriminate]. destruct (ledger_take r (tdel pair_eqb p L)) as [[s' L']|] eqn:Q2; [|discriminate]. inv H.
-    destruct (HL p v Q) as (u & U1 & U2).
+    destruct (HL p v Q) as (_ & u & U1 & U2).
     assert (HL' : Led cfg (tdel pair_eqb p L) (tdel pair_eqb p U)).
     { intros op v' Hq. assert (op <> p) by (intro; subst; rewrite (tget_tdel_same pair_eqb) in Hq; discriminate).
-      rewrite (tget_tdel_other pair_eqb pair_eqb_eq) in Hq by auto. destruct (HL op v' Hq) as (u' & A & B). exists u'.
+      rewrite (tget_tdel_other pair_eqb pair_eqb_eq) in Hq by auto. destruct (HL op v' Hq) as (Z & u' & A & B). split; auto. exists u'.
       rewrite (tget_tdel_other pair_eqb pair_eqb_eq) by auto. auto. }
     destruct (IH _ _ _ _ HL' Q2) as (ents & U1' & A & B & C). exists (u :: ents), U1'. cbn [take_inputs]. rewrite U1, A. cbn [bind].
     split; auto. split; auto. cbn [sum_tv fold_right]. fold (sum_tv cfg ents). lia.
 Qed.
 
-Lemma Led_tset : forall cfg L U k v u, Led cfg L U -> total_value cfg u = v ->
+Lemma Led_tset : forall cfg L U k v u, Led cfg L U -> total_value cfg u = v -> fst k <> 0 ->
   Led cfg (tset pair_eqb k v L) (tset pair_eqb k u U).
 Proof.
-  intros cfg L U k v u HL Hv op v' Hq. rewrite tgP_set in Hq. rewrite tgP_set. destruct (pair_eqb op k).
-  - inv Hq. exists u. auto.
+  intros cfg L U k v u HL Hv Hk op v' Hq. rewrite tgP_set in Hq. rewrite tgP_set. destruct (pair_eqb op k) eqn:Q.
+  - apply pair_eqb_eq in Q. subst op. inv Hq. split; auto. exists u. auto.
   - apply HL. exact Hq.
 Qed.
 
 Lemma put_outputs_led : forall cfg txid outs vout rs L U,
-  Led cfg L U ->
+  txid <> 0 -> Led cfg L U ->
   (c_sats cfg = true -> Forall2 (fun o m => ranges_size m = o_value o) outs rs) ->
   Led cfg (ledger_put txid vout outs L) (put_outputs cfg txid vout outs rs U).
 Proof.
-  intros cfg txid outs. induction outs as [|o r IH]; intros vout rs L U HL HS; cbn [ledger_put put_outputs]; auto.
-  apply IH.
+  intros cfg txid outs. induction outs as [|o r IH]; intros vout rs L U Hz HL HS; cbn [ledger_put put_outputs]; auto.
+  apply IH; auto.
   - apply Led_tset; auto. unfold total_value. destruct (c_sats cfg) eqn:S; cbn [u_value u_ranges]; auto.
     specialize (HS eq_refl). inv HS. cbn [hd]. auto.
   - intro S. specialize (HS S). inv HS. cbn [tl]. auto.
@@ -402,7 +402,7 @@ Qed.
 
 Lemma push_insc_led : forall cfg L op s off U, Led cfg L U -> Led cfg L (push_insc op s off U).
 Proof.
-  intros cfg L op s off U HL k v Hq. destruct (HL k v Hq) as (u & A & B).
+  intros cfg L op s off U HL k v Hq. destruct (HL k v Hq) as (Z & u & A & B). split; auto.
   destruct (push_insc_lookup cfg op s off U k u A) as (u' & A' & B'). exists u'. split; auto. congruence.
 Qed.
 
@@ -427,4 +427,66 @@ Proof.
   intros cfg L h rg ov l. induction l as [|f r IH]; intros b b' HL H; cbn [apply_lost] in H.
   - inv H. auto.
   - dbind H. dbind H. eapply IH; [|exact H]. eapply step_led; eauto.
+Qed.
+
+(* ---- floating_of never fails *)
+
+Lemma inputs_loop_null_total : forall cfg st txid height jubilant tov ins idx ents envs a,
+  forallb is_null ins = true ->
+  exists a', inputs_loop cfg st txid height jubilant tov ins idx ents envs a = Ok a' /\ a_float a' = a_float a.
+Proof.
+  intros cfg st txid height jubilant tov ins. induction ins as [|p r IH]; intros idx ents envs a H; cbn [inputs_loop]; [eauto|].
+  cbn [forallb] in H. apply andb_true_iff in H. destruct H as [H1 H2]. rewrite H1.
+  destruct (IH (idx + 1) ents envs (mkA (a_float a) (a_io a) (a_idc a) (a_tiv a + subsidy height)) H2) as (a' & A & B). eauto.
+Qed.
+
+Lemma sum_tv_in_start : forall cfg ents, in_start cfg 0 ents (length ents) = sum_tv cfg ents.
+Proof. intros. unfold in_start, sum_tv. rewrite firstn_all. lia. Qed.
+
+Lemma floating_of_total_plain : forall cfg st h t ents,
+  tx_plain t -> length ents = length (t_ins t) -> first_only (t_envs t) ->
+  (forall s e, tgN s (s_entries st) = Some e -> tgP (i_id e) (s_id2seq st) <> None) ->
+  (forall i s, tgP i (s_id2seq st) = Some s -> tgN s (s_entries st) <> None) ->
+  (forall u s off, In u ents -> In (s, off) (u_insc u) -> tgN s (s_entries st) <> None) ->
+  sum_values (t_outs t) <= sum_tv cfg ents ->
+  exists F, floating_of cfg st h t ents = Ok (F, sum_tv cfg ents) /\
+    (forall f, In f F -> is_new f = true -> f_unbound f = false -> f_offset f < sum_tv cfg ents) /\
+    KeyF (s_entries st) F /\ nnew F <= N.of_nat (length (t_envs t)).
+Proof.
+  intros cfg st h t ents HP HL HFo TX TV HK HV. unfold floating_of.
+  destruct (inputs_loop_total cfg st (t_id t) h (c_jubilee cfg <=? h) (sum_values (t_outs t)) (t_ins t) 0 [] ents (t_envs t) (mkA [] [] 0 0)) as (a & E); auto.
+  { intros _. split; auto. intros o id c Hq. discriminate. }
+  cbn [app] in E. rewrite E. cbn [bind].
+  destruct (inputs_loop_old_src cfg st (t_id t) h (c_jubilee cfg <=? h) (sum_values (t_outs t)) (t_ins t) 0 [] ents (t_envs t) (mkA [] [] 0 0) a) as [T Hsrc]; auto.
+  cbn [a_tiv] in T. rewrite sum_tv_in_start in T.
+  assert (NO0 : NO (sum_values (t_outs t)) (mkA [] [] 0 0)) by (intros f []).
+  destruct (inputs_loop_no _ _ _ _ _ _ _ _ _ _ _ _ NO0 E) as [HNO _].
+  pose proof (inputs_loop_idc _ _ _ _ _ _ _ _ _ _ _ _ E) as Hidc. cbn [a_idc] in Hidc.
+  assert (A0 : AI (t_id t) (mkA [] [] 0 0)) by (split; reflexivity).
+  pose proof (inputs_loop_ai _ _ _ _ _ _ _ _ _ _ _ _ A0 E) as [_ Hai].
+  assert (Hfee : exists fee, (if existsb is_new (a_float a) then do d <- csub 4 (a_tiv a) (sum_values (t_outs t)); Ok (d / a_idc a) else Ok 0) = Ok fee).
+  { destruct (existsb is_new (a_float a)); [|eauto]. unfold csub. rewrite T. destruct (N.leb_spec (sum_values (t_outs t)) (sum_tv cfg ents)); [cbn; eauto|lia]. }
+  destruct Hfee as (fee & ->). cbn [bind]. rewrite T. eexists. split; [reflexivity|]. split; [|split].
+  - intros f Hf Hn Hu. apply in_map_iff in Hf. destruct Hf as (g & <- & G2).
+    destruct (fix_new_props (map f_id (a_float a)) fee g) as (_ & B & _ & D). rewrite B in Hn. rewrite f_unbound_fix in Hu. rewrite D.
+    destruct (HNO g G2 Hn Hu); lia.
+  - intros f s Hf Ho. apply in_map_iff in Hf. destruct Hf as (g & G1 & G2).
+    assert (Hg : f_origin g = OOld s).
+    { subst f. unfold fix_new in Ho. destruct (f_origin g) eqn:Q; cbn in Ho; [discriminate|]. rewrite Q in Ho. exact Ho. }
+    destruct (Hsrc g s G2 Hg) as [[]|(i & u & off & A & B & _)]. eapply HK; [eapply nth_error_In; exact A|exact B].
+  - unfold nnew. rewrite new_ids_fix. lia.
+Qed.
+
+Lemma floating_of_total_cb : forall cfg st h t ents, tx_cb t -> exists tiv, floating_of cfg st h t ents = Ok ([], tiv).
+Proof.
+  intros cfg st h t ents [_ HC]. unfold floating_of.
+  destruct (inputs_loop_null_total cfg st (t_id t) h (c_jubilee cfg <=? h) (sum_values (t_outs t)) (t_ins t) 0 ents (t_envs t) (mkA [] [] 0 0) HC) as (a & -> & B).
+  cbn [bind]. cbn [a_float] in B. rewrite B. cbn. eauto.
+Qed.
+
+Lemma rebase_total : forall reward ov l, Forall (fun f => ov <= f_offset f) l -> exists l', rebase reward ov l = Ok l'.
+Proof.
+  intros reward ov l. induction l as [|f r IH]; intro H; cbn [rebase]; [eauto|].
+  apply Forall_cons_iff in H. destruct H as [H1 H2]. unfold csub. destruct (N.leb_spec ov (reward + f_offset f)); [|lia]. cbn [bind].
+  destruct (IH H2) as (l' & ->). cbn [bind]. eauto.
 Qed.
